@@ -110,6 +110,23 @@ def make_block(rng):
             parse_expect.append((addr, vals))
             line += addr + "".join("(" + v + ("*" + u if u is not None else "") + ")" for v, u in vals)
         lines.append(line.encode("ascii"))
+    if rng.random() < 0.2:
+        # "sequence of historical values": the same code twice, distinguished only by group F; the second one without unit (verbatim)
+        c, d, e = rng.choice(((1, 6, 0), (1, 8, 0), (2, 8, 0), (16, 7, 0), rng.choice(KNOWN_CDE)))
+        key = names.OBIS_NAMES.get(f"{c}.{d}.{e}", f"{c}.{d}.{e}")
+        if key not in used_names:
+            used_names.add(key)
+            f1, f2 = rng.sample(range(0, 100), 2)
+            a1, _ = p1_ref.reduced_address(rng, (1, 0, c, d, e, f1))
+            a2, _ = p1_ref.reduced_address(rng, (1, 0, c, d, e, f2))
+            v1, u1 = p1_ref.decimal_text(rng), rng.choice(p1_ref.UNITS_K + p1_ref.UNITS_PLAIN)
+            v2 = p1_ref.decimal_text(rng)
+            parse_expect.append((a1, [(v1, u1)]))
+            parse_expect.append((a2, [(v2, None)]))
+            decode_expect[key] = ("verbatim", v2)  # the later data set of the same C.D.E wins, and it has no unit
+            lines.append(f"{a1}({v1}*{u1})".encode())
+            lines.append(f"{a2}({v2})".encode())
+            tags.add("historical_pair")
     if not parse_expect:
         return make_block(rng)
     block = eol.join(lines) + eol
@@ -222,8 +239,50 @@ def check_block(block, parse_expect, decode_expect, ident, ctx) -> None:
         ctx.violation("C11:autodecoder:message-differs", f"AutoDecoder.decode_message(DataReadout) = {a2!r:.80} != decode_p1_readout", case)
 
 
+def crc_collision_pairs(rng, ctx, n: int) -> None:
+    """Two different, correctly check-summed readouts of equal length whose CRC16 coincide, decoded one after the other:
+    each must decode to its own values (a result memo keyed by checksum and length would return the first one's)."""
+    from han import dlde
+    from han.autodecoder import AutoDecoder
+
+    from vf.ref import crc16
+
+    for _ in range(n):
+        ident = p1_ref.strict_ident(rng)[0]
+        w1, w2 = "%06d" % rng.randrange(10**6), "%06d" % rng.randrange(10**6)
+        head1 = ident + b"\r\n1-0:1.8.0(" + w1.encode() + b".000*kWh)\r\n0-0:96.1.0("
+        head2 = ident + b"\r\n1-0:1.8.0(" + w2.encode() + b".000*kWh)\r\n0-0:96.1.0("
+        tail = b")\r\n!"
+        r1 = head1 + b"AAAAA" + tail
+        target = crc16.crc16(r1)
+        state = crc16.crc16(head2)
+        found = None
+        alphabet = b"0123456789ABCDEFGHIJKLMNOPQRSTUVWXYZabcdefghijklmnopqrstuvwxyz"
+        for tries in range(1 << 19):
+            val = bytes(rng.choice(alphabet) for _ in range(5))
+            if crc16.crc16(val + tail, state) == target:
+                found = val
+                break
+        if found is None or w1 == w2:
+            continue
+        r2 = head2 + found + tail
+        texts = [r + b"%04X\r\n" % target for r in (r1, r2)]
+        ctx.count("crc_and_length_collision_pairs")
+        ad = AutoDecoder()
+        for text, w in zip(texts, (w1, w2)):
+            ro = dlde.DataReadout(text)
+            case = {"block": ro.payload, "ident": ident, "collision_pair": [t for t in texts]}
+            for name, fn in (("decode_p1_readout", lambda: dlde.decode_p1_readout(ro)), ("AutoDecoder.decode_message", lambda: ad.decode_message(ro))):
+                got = fn()
+                if not isinstance(got, dict) or got.get("active_power_import_total") != int(w) * 1000:
+                    ctx.violation("C11:decode-readout:value-of-another-readout", f"{name}: readout with 1.8.0 = {w}.000 kWh decoded to {got.get('active_power_import_total') if isinstance(got, dict) else got!r} (previous readout had the same CRC16 and length)", case)
+        ctx.case(b"coll" + r1 + r2, True, 4)
+
+
 def run(shard, ctx):
     if shard["kind"] == "sweep":
+        if shard["lo"] == 0:
+            crc_collision_pairs(ctx.rng("c11coll"), ctx, 3)
         from han import dlde
 
         n = 0
@@ -258,6 +317,13 @@ def run(shard, ctx):
 
 
 def replay(case, ctx):
+    if "collision_pair" in case:
+        from han import dlde
+
+        outs = [dlde.decode_p1_readout(dlde.DataReadout(t)).get("active_power_import_total") for t in case["collision_pair"]]
+        if outs[0] == outs[1]:
+            ctx.violation("C11:decode-readout:value-of-another-readout", f"two different readouts decoded to the same value {outs[0]}", case)
+        return
     if "sweep_value" in case:
         from han import dlde
 
